@@ -8,17 +8,17 @@ from ..oracle import DIR_SUFFIX, H, canonical_dir_bytes, list_store, parse_dir_b
 RULE = (
     "case = (store class local/base/remote, store algorithm, hand-written store content: files, directory objects incl. shared and "
     "absent children, strays; used set mixing present ids, absent ids, ids under another algorithm name, directory ids; "
-    "shallow/expanding; dry/real; same or separate cache_odb; read-only flag); non-trivial = at least one object must go and at "
+    "shallow/expanding; dry/real; same or separate cache_odb; read-only flag; the same collection repeated in the same process - real run after a dry run, or again after the removed objects were put back); non-trivial = at least one object must go and at "
     "least one must stay; distinct = hash of the whole configuration"
 )
 ASSUMPTIONS = [
     "store contents are written by the harness itself (independent of dvc-data's add path)",
     "permitted refusals, only with the store left unchanged: ObjectDBPermissionError on a read-only store; "
-    "FileNotFoundError/ObjectFormatError when expanding a used directory id that cache_odb cannot load",
+    "FileNotFoundError/ObjectFormatError when expanding a used directory id that cache_odb cannot load (if gc goes ahead instead, the files that directory object lists - known to the harness - still count as used)",
     "stray files that do not have the <2>/<rest> layout are outside the property",
 ]
 MONITORS = "independent before/after os.walk listing of the store compared with a set-difference model; return value; byte snapshot of survivors"
-REQUIRED_COUNTERS = ["stale_listing_loaded_before_gc", "path_spelling/trailing-slash", "path_spelling/dotdot", "nfc_nfd_sibling_listings", "used_as/generator", "used_as/iterator", "gc_calls", "expanding_calls_with_used_dir", "dry_calls", "readonly_calls", "real_removals", "foreign_algo_ids_in_used"]
+REQUIRED_COUNTERS = ["repeat_calls_in_one_process", "stale_listing_loaded_before_gc", "path_spelling/trailing-slash", "path_spelling/dotdot", "nfc_nfd_sibling_listings", "used_as/generator", "used_as/iterator", "gc_calls", "expanding_calls_with_used_dir", "dry_calls", "readonly_calls", "real_removals", "foreign_algo_ids_in_used"]
 
 
 def _put(root, oid, data, mode):
@@ -170,6 +170,9 @@ def run_shard(ctx):
                         keep |= set(listing.values())
                     except (FileNotFoundError, ValueError):
                         unloadable.append(o)
+                        # the listing cannot be read where gc looks for it: gc may refuse, but if it goes ahead the files the
+                        # directory object (content-addressed: any valid copy says the same) lists are still used
+                        keep |= set(dirs[o][0].values())
             expected_removed = present - keep
             res.evaluated()
             res.count("gc_calls")
@@ -223,26 +226,47 @@ def run_shard(ctx):
                 return
             if read_only:
                 res.violation("read-only-not-refused", "gc ran on a read-only store", case=case, detail=cfg)
-            if n != len(expected_removed):
-                res.violation("wrong-count", f"gc returned {n}, model removes {len(expected_removed)}", case=case, detail=cfg)
-            if dry:
-                if after != before:
-                    res.violation("dry-run-removed", "dry run changed the store", case=case, detail=cfg)
-            else:
+
+            def judge(n, before, after, dry, tag=""):
+                if n != len(expected_removed):
+                    res.violation("wrong-count" + tag, f"gc returned {n}, model removes {len(expected_removed)}", case=case, detail=cfg)
+                if dry:
+                    if after != before:
+                        res.violation("dry-run-removed" + tag, "dry run changed the store", case=case, detail=cfg)
+                    return
                 gone = present - set(after)
                 used_lost = gone & keep
                 if used_lost:
-                    res.violation("used-object-removed", f"{len(used_lost)} used object(s) removed", case=case,
+                    res.violation("used-object-removed" + tag + ("/used-directory-not-loadable" if unloadable else ""), f"{len(used_lost)} used object(s) removed", case=case,
                                   detail={**cfg, "lost": sorted(used_lost)})
                 survived = (set(after) & expected_removed)
                 if survived:
-                    res.violation("unused-object-kept", f"{len(survived)} unused object(s) still present", case=case,
+                    res.violation("unused-object-kept" + tag, f"{len(survived)} unused object(s) still present", case=case,
                                   detail={**cfg, "kept": sorted(survived)})
                 for o in set(after):
                     if after[o] != before.get(o):
-                        res.violation("survivor-bytes-changed", "gc altered a surviving object", case=case, detail=cfg)
+                        res.violation("survivor-bytes-changed" + tag, "gc altered a surviving object", case=case, detail=cfg)
                         break
                 res.count("real_removals", len(gone))
+
+            judge(n, before, after, dry)
+            if unloadable:
+                res.count("went_ahead_with_unloadable_used_dir")
+            # ---- the same collection once more in the same process: the real run after a dry run, or a repeat after the removed
+            # objects came back (e.g. fetched again)
+            if rng.random() < 0.7:
+                if not dry:
+                    for o in present - set(after):
+                        _put(root, o, before[o], mode)
+                res.count("repeat_calls_in_one_process")
+                cfg["second_call"] = "real-after-dry" if dry else "repeat-after-restore"
+                used_arg2 = list(used)
+                try:
+                    n2 = gc(odb, used_arg2, jobs=jobs, cache_odb=cache_odb, shallow=shallow, dry=False)
+                    after2 = store_snapshot(root)
+                    judge(n2, before, after2, False, "/second-call-in-process")
+                except (FileNotFoundError, ObjectFormatError) as e:
+                    res.violation("second-call-raised", f"the repeated gc raised {type(e).__name__} although the first went through", case=case, detail=cfg)
             if separate_cache and store_snapshot(croot) != cache_before:
                 res.violation("cache-odb-modified", "gc modified cache_odb", case=case, detail=cfg)
             _o, _t, strays = list_store(root)
